@@ -353,6 +353,46 @@ def eval_terminal(case):
         res = call(f)
     elif kind == "bare_frequencies":
         res = call(lambda: Histogram1D(np.array(EDGES), h.frequencies.copy()))
+    elif kind.startswith("set_frequencies"):
+        # contents assigned directly (public setter): whatever was recorded about the raw values no longer describes them
+        def f():
+            o = h
+            o.frequencies = np.asarray(o.frequencies) * 3 + np.array([5, 0, 1], dtype=o.frequencies.dtype)
+            if kind.endswith("then_fill"):
+                o.fill(1.5)
+            elif kind.endswith("then_fill_n"):
+                o.fill_n(np.array([0.5, 2.5]))
+            elif kind.endswith("then_add"):
+                o = o + other
+            elif kind.endswith("then_iadd"):
+                o += other
+            elif kind.endswith("then_radd"):
+                o = other + o
+            elif kind.endswith("then_mul"):
+                o = o * 2
+            elif kind.endswith("then_idiv"):
+                o /= 4
+            elif kind.endswith("then_copy"):
+                o = o.copy()
+            elif kind.endswith("then_merge"):
+                o = o.merge_bins(2)
+            return o
+        res = call(f)
+    elif kind in ("valid_plus_bare", "bare_plus_valid", "valid_iadd_bare", "sum_with_bare"):
+        # one operand without valid statistics spoils the sum, whichever side it is on
+        bare = Histogram1D(np.array(EDGES), np.array([1, 0, 2]))
+        if kind == "valid_plus_bare":
+            res = call(lambda: h + bare)
+        elif kind == "bare_plus_valid":
+            res = call(lambda: bare + h)
+        elif kind == "sum_with_bare":
+            res = call(lambda: sum([h, other, bare]))
+        else:
+            def f():
+                o = h
+                o += bare
+                return o
+            res = call(f)
     elif kind == "slice":
         res = call(lambda: h[0:2])
     elif kind == "mask":
@@ -463,7 +503,10 @@ def run_unit(unit, ctx):
         for data in datasets:
             for w in WEIGHTS:
                 for kind in ("normalize", "normalize_inplace", "percent", "sub", "isub", "free_sub", "free_isub", "free_mul_array", "free_add_array", "free_div_array",
-                             "bare_frequencies", "slice", "mask"):
+                             "bare_frequencies", "slice", "mask", "set_frequencies", "set_frequencies_then_fill", "set_frequencies_then_fill_n",
+                             "set_frequencies_then_add", "set_frequencies_then_iadd", "set_frequencies_then_radd", "set_frequencies_then_mul",
+                             "set_frequencies_then_idiv", "set_frequencies_then_copy", "set_frequencies_then_merge",
+                             "valid_plus_bare", "bare_plus_valid", "valid_iadd_bare", "sum_with_bare"):
                     case = {"data": data, "w": w, "kind": kind}
                     vs = eval_terminal(case)
                     p.ev(True)
